@@ -443,6 +443,56 @@ def scenario(draw, p=None):
 
 
 # ---------------------------------------------------------------------------------------------
+# Advanced options (advanced_bads_options.ini) that the code reads, with alternative values of the default's own type
+# and range. Not listed: switches whose path announces itself as unimplemented (init_fun other than init_sobol,
+# periodic_vars, acq_hedge, fun_values/f_vals, output_fcn, plot, warp_func), values the statement of C18 excludes
+# (hedge_gamma = 0) and fit_lik = False (known finding of C09, exercised by a dedicated case).
+# ---------------------------------------------------------------------------------------------
+ADV_OPTS = (
+    ("poll_mesh_multiplier", (3.0, 4.0)), ("n_train_max", (20, 35)), ("n_train_min", (10, 25)), ("buffer_ntrain", (10, 40)),
+    ("improvement_quantile", (0.25, 0.75)), ("tol_stall_iters", (1, 2, 10)), ("accelerate_mesh_steps", (1, 5)),
+    ("sloppy_improvement", (False,)), ("search_grid_number", (5, 20)), ("search_grid_multiplier", (1, 3)),
+    ("mesh_overflow_warning", (1, 10)), ("max_poll_grid_number", (1, 2)), ("adaptive_incumbent_shift", (True,)),
+    ("tol_poi", (1e-3, 1e-9)), ("search_method", ([["ES-wcm", 1]], [["ES-ell", 1]], [["ES-ell", 1], ["ES-wcm", 1]])),
+    ("min_failed_poll_steps", (1, 3)), ("incumbent_sigma_multiplier", (1.0, 0.0)), ("gp_train_n_init", (16, 256)),
+    ("gp_train_n_init_final", (2, 16)), ("gp_radius", (1, 6)), ("gp_fixed_mean", (True,)), ("use_effective_radius", (False,)),
+    ("uncertain_incumbent", (False,)), ("tol_improvement", (0.5, 2.0)), ("skip_poll_after_search", (False,)),
+    ("search_scale_success", (2.0, 1.0)), ("search_scale_failure", (0.5, 1.0)), ("search_scale_incremental", (1.5, 3.0)),
+    ("restarts", (1,)), ("remove_points_after_tries", (2, 0)), ("poll_training", (False,)), ("min_refit_time", (1, 20)),
+    ("mesh_noise_multiplier", (1.0, 0.1)), ("double_refit", (True,)), ("consecutive_skipping", (False,)),
+    ("force_poll_mesh", (True,)), ("alternative_incumbent", (True,)), ("gp_rescale_poll", (2.0, 0.5)),
+    ("forcing_exponent", (2.0, 1.0)), ("final_quantile", (0.1, 1e-6)), ("fun_evals_per_iter", (2,)), ("gp_mean_percentile", (50, 99)),
+    ("gp_quadratic_mean_bound", (False,)), ("upper_gp_length_factor", (1, 2)), ("weighted_hyp_cov", (False,)),
+    ("hyp_run_weight", (0.5,)), ("hessian_update", (True,)), ("fitness_shaping", (True,)), ("noise_shaping", (True,)),
+    ("search_optimize", (True,)), ("gp_cov_prior", ("none",)), ("gp_train_init_method", ("sobol",)), ("gp_tol_opt", (1e-3, 1e-8)),
+    ("hpd_frac", (0.5,)), ("normalpha_level", (1e-3,)), ("skip_poll", (False,)), ("opp_stobads", (False,)),
+    ("stobads_frame_size_scaling_power", (1,)), ("es_start", (0.5, 0.1)), ("es_beta", (0.5, 2)), ("search_factor_min", (1.0, 0.1)),
+    ("tol_fun", (1e-8, 1e-2)), ("gp_method", ("grid",)), ("hedge_gamma", (0.25, 0.5)), ("hedge_decay", (0.5, 0.99)),
+    ("search_improve_frac", (0.1, 0.5)), ("n_search", (2**8, 2**13)), ("n_search_iter", (1, 3, 4)), ("search_n_try", (1, 2, 6)),
+    ("search_size_locked", (False,)), ("search_mesh_expand", (1, 2)), ("search_mesh_increment", (0, 2)),
+    ("gp_mean_fun", ("negquad", "zero")), ("use_slice_sampler", (True,)), ("gp_warnings", (True,)), ("stobads", (True,)),
+    ("complete_poll", (True,)), ("accelerate_mesh", (False,)), ("cache_size", (1, 7, 50)), ("nonlinear_scaling", (False,)),
+)
+
+
+@st.composite
+def with_adv_opts(draw, prof, kmin=1, kmax=3, pool=ADV_OPTS):
+    """A scenario of `prof` in which kmin..kmax advanced options are set to non-default values."""
+    scn = draw(scenario(prof))
+    k = draw(st.integers(kmin, kmax))
+    names = []
+    for _ in range(k):
+        # (hashed 32-bit draw: Hypothesis' small-range integers and sampled_from favour a few values)
+        name, values = pool[(((draw(st.integers(0, 2**32 - 1)) * 2654435761) % 2**32) >> 12) % len(pool)]
+        if name == "nonlinear_scaling":
+            continue  # decided when the scenario was drawn (the target's geometry depends on it)
+        scn["options"][name] = draw(st.sampled_from(list(values)))
+        names.append(name)
+    scn["adv"] = sorted(set(names))
+    return scn
+
+
+# ---------------------------------------------------------------------------------------------
 # Simplification candidates for the field-level minimiser used on run-level cases
 # ---------------------------------------------------------------------------------------------
 def simplifications(s):
